@@ -576,7 +576,8 @@ def stepWriter (cfg : Cfg) (s : St) (d : Disk) : Act → Option (St × Disk)
       let n := s.nextFile
       let d' := d.exec (.create .journal n) o
       if o.failed then
-        -- `reuseFileNum`; a file that was created nevertheless stays behind (empty, larger number)
+        -- `reuseFileNum`: the number is handed out again (file numbers are per type: to a table, a manifest or
+        -- the next journal, whose `Create` truncates); a file that was created nevertheless stays behind, empty
         some (s, d')
       else
         some ({ s with nextFile := n + 1, frozen := some s.mem, mem := [], jfrozen := some s.jcur, jcur := n,
@@ -956,24 +957,10 @@ def Act.writerFaultFree : Act → Bool
     transaction commit or a recovery, except the two known findings -/
 def Act.jobFaultsOnly (s : St) (a : Act) : Bool := a.writerFaultFree && a.noD10 s && a.noD26 s
 
-/-- every journal file the next `Open` would replay is empty -/
-def cleanJournals (s : St) (d : Disk) : Bool := d.journals.all fun p => decide (p.1 < s.stJn) || p.2.all.isEmpty
-
-/-- restriction of `C08.fault_safe_writer_partial`: a transaction is not opened while the record of a write whose
-    journal operation failed may be waiting in a journal (see there) -/
-def Act.trOnCleanJournals (sd : St × Disk) : Act → Bool
-  | .trBegin => !sd.1.everFailed || cleanJournals sd.1 sd.2
-  | _ => true
-
-/-- the creation of the new journal in `newMem` does not fail after the file was created -/
-def Act.rotateCreateOK : Act → Bool
-  | .rotate o => o != .failEffect
-  | _ => true
-
-/-- the storage faults `C08.fault_safe_writer_partial` covers: all of `jobFaultsOnly`, and every failure of a
-    journal `Write`/`Sync` of the write path -/
-def Act.faultsOK (sd : St × Disk) (a : Act) : Bool :=
-  a.noD10 sd.1 && a.noD26 sd.1 && a.rotateCreateOK && a.trOnCleanJournals sd
+/-- the storage faults `C08.fault_safe_writer` covers: every failure of every storage operation of the machine —
+    journal `Write`/`Flush`/`Sync` of the write path, `Create` in `newMem`, everything inside a flush, a table
+    compaction, a transaction commit, a recovery — except the two known findings D10 and D26 -/
+def Act.faultsOK (sd : St × Disk) (a : Act) : Bool := a.noD10 sd.1 && a.noD26 sd.1
 
 /-- every action of the run satisfies `P` in the state it is taken in -/
 def allowed (cfg : Cfg) (P : St × Disk → Act → Bool) : St × Disk → List Act → Bool
